@@ -138,4 +138,31 @@ example : [[0, 0, 0, 13, 0, 0, 0x81, 13, 0, 0, 1, 2, 3, 4, 1, 2, 3, 0, 0, 0, 10,
 example : feed Rx.init [0, 0, 0, 0, 0, 0, 0, 10, 0xFF, 0xFF, 0, 0, 0, 5, 0, 0, 0, 7] = ⟨[0, 0, 0, 10, 0xFF, 0xFF, 0, 0, 0, 5, 0, 0, 0, 7], [], 1⟩ := by
   decide +kernel
 
+/-! ## hand-over of a segment to the receiver thread (no lost wake-up) -/
+
+open SecsModel.Model.Rx.OnData in
+/-- **No lost wake-up, for the statement order that exists** (`Gen.RxOrder.onData`, extracted from `_on_connection_data_received`): the
+handler appends exactly once and every statement is one the model knows; the listed states are closed under every step of the connection
+thread, the receiver thread and the arrival of further segments (so they are all reachable states, for any number of segments and any
+interleaving); in none of them are there bytes nobody has looked at while the receiver thread sleeps with no wake-up pending or coming;
+and whenever unseen bytes exist and the handler has finished, the receiver thread can take a step (its pass over the buffer is at most
+two steps away).  This is what makes `feed` ("one `on_data`, then one run of the loop") a faithful reading of the threaded code. -/
+theorem on_data_no_lost_wakeup :
+    Gen.RxOrder.onData.filter (· = "append") = ["append"]
+    ∧ (∀ st ∈ Gen.RxOrder.onData, st = "append" ∨ st = "trigger")
+    ∧ St.init ∈ reach Gen.RxOrder.onData
+    ∧ (∀ s ∈ reach Gen.RxOrder.onData, ∀ l ∈ labels, ∀ s', step Gen.RxOrder.onData s l = some s' → s' ∈ reach Gen.RxOrder.onData)
+    ∧ (∀ s ∈ reach Gen.RxOrder.onData, lost s = false)
+    ∧ (∀ s ∈ reach Gen.RxOrder.onData, s.unseen = true → s.prog = [] → (step Gen.RxOrder.onData s .rx).isSome = true) := by
+  decide +kernel
+
+open SecsModel.Model.Rx.OnData in
+/-- **witness: with the two statements swapped the wake-up is lost.**  `trigger_receiver()` first: the receiver thread wakes, clears the
+trigger, passes over the (still empty) buffer and goes back to sleep; the bytes are appended afterwards and nobody looks at them until an
+unrelated later segment arrives — the last frame of a burst is not delivered. -/
+theorem swapped_order_loses_wakeup :
+    ∃ s, run ["trigger", "append"] St.init [.segment, .conn, .rx, .rx, .conn] = some s ∧ lost s = true
+      ∧ step ["trigger", "append"] s .conn = none ∧ step ["trigger", "append"] s .rx = none := by
+  refine ⟨_, rfl, ?_⟩; decide +kernel
+
 end SecsModel.Props.C04
